@@ -63,7 +63,15 @@ theorem C02_cab_lzx_no_fault (files : Files) (L : Nat) (fuel : Nat) (st : Lzx.St
   · rw [hk] at hout
     rw [heq] at hk
     have := Lzx.C02_lzx_inv_preserved (lenFiltered files L) L (lenFiltered_stable files L) fuel st n h.1 ho o hk
-    exact ⟨⟨this.1, hout⟩, this.2⟩
+    exact ⟨⟨this.1, fun he => (hout he).1⟩, this.2⟩
+
+/-- a status other than OK is sticky: if the state returned is still alive, the call returned OK -/
+theorem C02_cab_lzx_status_sticky (files : Files) (L : Nat) (fuel : Nat) (st : Lzx.St Feeder) (n : Nat)
+    (h : LzxLive files L st) (o : DecodeOut (Lzx.St Feeder))
+    (hk : Lzx.decompress (feederSrc files) fuel st n = .ok o) (he : o.st.error = .ok) : o.err = .ok := by
+  have hout := (LzxThread.decompress_cg files L fuel st n h.2).2
+  rw [hk] at hout
+  exact (hout he).2
 
 /-- none of the undefined-behaviour outcomes other than `uninit` (property C11) -/
 theorem C02_cab_lzx_no_ub (files : Files) (L : Nat) (fuel : Nat) (st : Lzx.St Feeder) (n : Nat)
